@@ -3,7 +3,7 @@ import ExaModel.Model.NlriFraming
 import ExaModel.Driver.Util
 /-! Line protocol of M-Index / M-Framing (stateless).
 
-    index <idx|route|hash|fix|wf> <inet|label|vpn> <afi> <safi> <path hex|none> <labels hex> <rd hex|none> <mask> <prefix hex>
+    index <idx|route|hash|old|wf> <inet|label|vpn> <afi> <safi> <path hex|none> <labels hex> <rd hex|none> <mask> <prefix hex>
     framing split <kind> <afi> <safi> <addpath 0|1> <data hex>   →  ok <consumed> <stored> <rest> | none
     framing pack <kind> <stored hex>                             →  <hex> | none
     framing kind <afi> <safi>                                    →  <kind> | none
@@ -60,7 +60,7 @@ def indexLine (ws : List String) : String :=
       | "idx" => toHex (index a)
       | "route" => toHex (routeIndex a)
       | "hash" => toHex (hashKey a)
-      | "fix" => toHex (indexFix a)
+      | "old" => toHex (indexOld a)
       | "wf" => if wf a then "1" else "0"
       | _ => "bad-op"
   | _ => "bad-op"
